@@ -6,7 +6,7 @@ import re
 import time
 
 VERIF = os.path.dirname(os.path.dirname(os.path.abspath(__file__)))
-EVID = os.path.join(VERIF, 'evidence')
+EVID = os.environ.get('IPT_EVID') or os.path.join(VERIF, 'evidence')
 KNOWN = os.path.join(VERIF, 'KNOWN_FINDINGS.txt')
 
 
